@@ -859,6 +859,44 @@ func cmdExpect(args []string) int {
 		sort.Strings(out[p])
 	}
 	if update {
+		// baseline token text of every function under contract (used to recognise renamed locals later, anchor.go)
+		base := map[string][]string{}
+		for _, u := range cs.Units {
+			if u.Lemma {
+				continue
+			}
+			if fu := prog.Lookup(u.PkgDir, u.Func); fu != nil {
+				key := u.PkgDir + ":" + u.Func
+				if _, done := base[key]; !done {
+					base[key] = tokensOfText(string(srcOf(prog, fu.Body)))
+				}
+			}
+		}
+		bd, _ := json.Marshal(base)
+		os.WriteFile(filepath.Join(contractsDir(), "baseline_tokens.json"), bd, 0o644)
+		// leading tokens of every loop of those functions, by ordinal (to follow a loop contract when ordinals shift)
+		loops := map[string][][]string{}
+		for _, u := range cs.Units {
+			if u.Lemma {
+				continue
+			}
+			if fu := prog.Lookup(u.PkgDir, u.Func); fu != nil {
+				key := u.PkgDir + ":" + u.Func
+				if _, done := loops[key]; !done {
+					var hs [][]string
+					for _, l := range loopsOf(fu.Body) {
+						t := tokensOfText(string(srcOf(prog, l)))
+						if len(t) > 28 {
+							t = t[:28]
+						}
+						hs = append(hs, t)
+					}
+					loops[key] = hs
+				}
+			}
+		}
+		ld, _ := json.Marshal(loops)
+		os.WriteFile(filepath.Join(contractsDir(), "baseline_loops.json"), ld, 0o644)
 		data, _ := json.MarshalIndent(out, "", " ")
 		os.WriteFile(filepath.Join(contractsDir(), "expected_obligations.json"), data, 0o644)
 		fmt.Println("expected_obligations.json rewritten")
